@@ -206,6 +206,14 @@ def _core_verdict(seq, s, protected, icase=False, seps=''):
     return EITHER if Matcher(s, 'lenient', icase, seps).full(seq) else MUSTNOT
 
 
+def seg_nullable(seq):
+    """Undecided zone of C02: a segment pattern that can match the empty string *through a group* (`?(b)`, `@(|a)`, `?(x)*`).
+    A segment that begins with `*` is not in the zone: the statement itself says `*` never matches an empty segment."""
+    if not seq or seq[0] == A.STAR:
+        return False
+    return nullable(seq)
+
+
 def name_verdict(seq, name, dot, icase=False):
     """fnmatch-mode verdict for a whole name (C01 for non-hidden names / DOTMATCH, C03 for hidden names)."""
     if name == '':
@@ -308,7 +316,7 @@ def path_verdict(pp, path, dot=False, globstar=False, globstarlong=False, matchb
             implicit = True
     if pp.absolute != pab:
         if not (pab and not pp.absolute and segs and segs[0] == A.GS):
-            if not pp.absolute and segs and segs[0] != A.GS and nullable(segs[0]):
+            if not pp.absolute and segs and segs[0] != A.GS and seg_nullable(segs[0]):
                 return EITHER      # relative pattern with a nullable first segment vs absolute path
             return MUSTNOT
     nseg = len(segs)
@@ -330,11 +338,11 @@ def path_verdict(pp, path, dot=False, globstar=False, globstarlong=False, matchb
                 r = _or(r, rec(i + 1, k, False))
         elif j < np_:
             r = _and(seg_verdict(segs[i], psegs[j], dot, nodotdir, icase), rec(i + 1, j + 1, False))
-            if r != MUST and nullable(segs[i]) and rec(i + 1, j, False) != MUSTNOT:
+            if r != MUST and seg_nullable(segs[i]) and rec(i + 1, j, False) != MUSTNOT:
                 r = _or(r, EITHER)     # nullable segment pattern aligned with "no segment"
         else:
             r = MUSTNOT
-            if nullable(segs[i]) and rec(i + 1, j, False) != MUSTNOT:
+            if seg_nullable(segs[i]) and rec(i + 1, j, False) != MUSTNOT:
                 r = EITHER
         memo[key] = r
         return r
@@ -358,11 +366,11 @@ def path_verdict(pp, path, dot=False, globstar=False, globstarlong=False, matchb
                     r = _or(r, rec_last(i + 1, k))
             elif j < np_:
                 r = _and(seg_verdict(segs[i], psegs[j], dot, nodotdir, icase), rec_last(i + 1, j + 1))
-                if r != MUST and nullable(segs[i]) and rec_last(i + 1, j) != MUSTNOT:
+                if r != MUST and seg_nullable(segs[i]) and rec_last(i + 1, j) != MUSTNOT:
                     r = _or(r, EITHER)
             else:
                 r = MUSTNOT
-                if nullable(segs[i]) and rec_last(i + 1, j) != MUSTNOT:
+                if seg_nullable(segs[i]) and rec_last(i + 1, j) != MUSTNOT:
                     r = EITHER
             memo[key] = r
             return r
